@@ -27,3 +27,8 @@ func VerifProcInbox(e *Engine, pid *PID) *Inbox {
 	in, _ := p.inbox.(*Inbox)
 	return in
 }
+
+// VerifMuteEvents detaches the event stream of e: BroadcastEvent becomes a no-op (the engine
+// code tolerates a nil event stream). Used by "quiet" scenarios that do not observe events, so
+// that the exploration budget goes into the mechanism under test instead of event fan-out.
+func VerifMuteEvents(e *Engine) { e.eventStream = nil }
